@@ -96,6 +96,22 @@ VERUS_UNITS = {
             ('cleanup_spec(old(world), final(world), old(world).event().data_entity),', 'ecs_same(old(world), final(world)),', 'end_entity_event'),
         ],
     },
+    'abort': {
+        'template': 'abort.rs.tpl',
+        'owners': [(r'cleanup_on_abort$', ['C03', 'C05', 'C18'])],
+        'negctl': [
+            ('ensures *final(world) == poll_eff(gc_eff(cleanup_eff(cleanup, setup_eff(setup, *old(world))))),',
+             'ensures *final(world) == poll_eff(gc_eff(setup_eff(setup, cleanup_eff(cleanup, *old(world))))),', 'cleanup_on_abort'),
+        ],
+    },
+    'revoke': {
+        'template': 'revoke.rs.tpl',
+        'owners': [(r'revoke_reactor$', ['C06', 'C18']), (r'revoke_entity_reactor$', ['C06', 'C18'])],
+        'negctl': [
+            ('ReactorType::ComponentMutation(t) => (c_component(st.0, EntityReactionType::Mutation(t), id), st.1),',
+             'ReactorType::ComponentMutation(t) => (c_component(st.0, EntityReactionType::Insertion(t), id), st.1),', 'revoke_reactor'),
+        ],
+    },
     'lemmas': {
         'template': 'lemmas.rs.tpl',
         'owners': [
@@ -139,19 +155,49 @@ NA = {
     'C15': 'the behaviour lives in an anonymous closure built inside ReactCommands::once; no nameable function carries a contract that states it, and it is observable only by running reaction trees through the runner (C02)',
 }
 
-# property -> claim.  `pending` = not built yet (listed under not_applicable with that reason until its obligations exist).
+# property -> claim.
+ENVNOTE = 'Kani tier runs the real crate against the assumed Bevy of /verif/env (kept honest by the 81 repo tests passing against it, setup + thorough); Verus tier uses spec-level stand-ins for Bevy/std types listed in each evidence file (assume_specification / external_body / uninterp); debug_assert! compiled out / dropped (release semantics)'
+
 PROPS = {
+    'C01': dict(category='other', design_ref='DESIGN.md 5/C01',
+        text='Registration tables as abstract maps key -> list: Verus proves on the verbatim text, for tables and lists of ANY size, that each of the 7 ReactCache::register_* functions appends exactly one handle to exactly the list named by (kind, key) and leaves every other list of every table unchanged, and that schedule_resource_mutation_reaction / schedule_broadcast_reaction queue exactly one command per entry of the trigger type\'s list, in order, with the right reactor id (and nothing for an empty list). Kani discharges on the real code, for bounded shapes, the functions outside Verus\' subset: EntityReactors::{insert,remove,count,iter_rtype,iter_reactors} (lists L<=3, all contents), ReactCache::revoke_* (neighbours keep their entries), schedule_{entity_event,insertion,mutation}_reaction (entity-scoped + type-wide listeners, wrong-kind / wrong-type entries present and not fired). Lemma L3 (Verus) lifts register/revoke contracts to arbitrary histories on one key. Level other: the schedule_* functions with Query access are bounded stand-ins; that Bevy applies the scheduling command in-line is runner/queue semantics (C02/C09, not applicable).',
+        note=ENVNOTE + '; maps = finite partial maps (hashing not modelled); ReactionTrigger::register per trigger type and syscommand_runner not under contract',
+        explanation='register_* x7 + 2 type-wide schedule fns proved unbounded (Verus, verbatim); entity-scoped dispatch, EntityReactors and revoke_* bounded (Kani); history lemma L3'),
+    'C03': dict(category='other', design_ref='DESIGN.md 5/C03',
+        text='Contracts on the four access trackers, every event reader and the setup/cleanup functions of commands.rs: prepare = append, end clears (Verus, unbounded, verbatim); start(r) claims the oldest entry parked for r and leaves the rest in order (Kani, every content of lists of length 0..3 quick / 0..5 thorough); Insertion/Mutation/Removal/DespawnEvent::get return the current reaction\'s source iff the tracker is reacting AND kind AND component type id are the reader\'s, generically in the component type (Verus, verbatim); Broadcast/EntityEvent readers likewise for payload types u32/u16 (Kani, loop-free); start_X/end_X start/stop exactly the trackers of kind X (Verus, verbatim, against the assumed World contract); cleanup_on_abort = setup then cleanup, unconditionally (Verus). Lemma L1 (Verus) lifts the start contract to: for any interleaving of parked events each run of a system receives the oldest metadata parked for it. Not covered: that the runner replays postponed commands in parking order (runner-level histories; known finding F3).',
+        note=ENVNOTE + '; the cross-kind metadata mix-up under nested replay (F3) is a runner-level history that no function contract decides: listed in known_findings.json',
+        explanation='tracker prepare/end/getters, entity-reaction and despawn readers, start_/end_* and cleanup_on_abort proved by Verus on verbatim text; tracker start and event readers complete@shape by Kani; per-system FIFO by lemma L1; runner not covered'),
+    'C04': dict(category='other', design_ref='DESIGN.md 5/C04',
+        text='Kani discharges on the real run_initialized_system, for exclusive and non-exclusive systems with 0 and 2 deferred commands, that the cleanup runs exactly once, after the system body and before the first command the body deferred is applied; and on RawCallbackSystem / CallbackSystem::run_with_cleanup that this holds on every one of 2-3 consecutive runs and for the Empty callback. Verus proves on verbatim text that every end_X cleanup leaves its tracker(s) not reacting (and releases the payload per C05), that every reader returns Err when its tracker is not reacting, and that a system-event payload can be taken at most once (SystemEventData::take). Level other: the stub System used by the callback harnesses stands for Bevy\'s function/exclusive systems; positions in arbitrary trees and the anonymous closure of ReactCommands::once are not under contract.',
+        note=ENVNOTE + '; `unsafe` in run_initialized_system trusted; stub System = assumed contract of bevy System (run = run_unsafe + apply_deferred; exclusive run = body + flush)',
+        explanation='cleanup placement complete per (exclusive?, #deferred) shape by Kani on the real function; end_* and readers proved by Verus; once() closure and tree positions not covered'),
+    'C05': dict(category='other', design_ref='DESIGN.md 5/C05',
+        text='Verus proves on verbatim text: DataEntityCounter arithmetic (released at exactly the n-th of n decrements, lemma L2); try_cleanup_data_entity despawns the payload entity iff the decrement reaches 0 and is a no-op for entities that are gone or carry no counter; end_{entity_event,broadcast_event} perform exactly one such cleanup on the current event\'s data entity, end_system_event despawns its payload entity; schedule_broadcast_reaction spawns ONE payload entity whose counter equals the number of queued readers (any list length) and spawns nothing for zero listeners; cleanup_on_abort runs setup then cleanup for a skipped run. Kani: schedule_entity_event_reaction counter = number of queued readers (scoped + type-wide) for bounded shapes; try_cleanup_data_entity on the stub World. Not covered: release at the latest when the tree ends / root discard (runner).',
+        note=ENVNOTE,
+        explanation='counter, cleanup, broadcast scheduling proved by Verus (unbounded); entity-event scheduling bounded (Kani); runner paths not covered'),
+    'C06': dict(category='other', design_ref='DESIGN.md 5/C06',
+        text='Verus proves on the verbatim revoke_reactor / revoke_entity_reactor, for tokens of ANY length, that every element of the token is processed, in order, by exactly the revocation its kind names (right table, right key, right reaction type, the token\'s id), entity-scoped elements being skipped - not aborting the walk - when the entity is gone. The per-table revocations assumed there are discharged by Kani on the real functions for lists of length 0..3 (all ids symbolic): revoke_X removes exactly the first entry of the id from the named list, keeps the others in order, leaves sibling lists / other keys untouched, and is a no-op for an absent id or key; EntityReactors::remove deletes exactly the (type, id) matches. Lemma L3 (Verus): over any history on one key, the number of live entries of an id is registrations minus effective revocations, other ids unaffected.',
+        note=ENVNOTE + '; the assumed effects of the callees in unit `revoke` are uninterpreted functions - their meaning is fixed by the Kani contracts, the correspondence is by review',
+        explanation='token walk proved unbounded (Verus, verbatim); per-table removal bounded L<=3 (Kani, real code); history lemma L3'),
     'C12': dict(category='other', design_ref='DESIGN.md 5/C12',
         text='Verus proves on the verbatim text of command_queue.rs (all lengths) that the postponed-command buffer is FIFO (push appends, remove hands over everything in order, append concatenates, pop_front = head) and, with lemma L1 (unbounded, any interleaving), that parked event metadata is a per-system FIFO given the contract of *AccessTracker::start; that contract (claims the OLDEST entry of the system, the other entries keep their ORDER) is discharged by Kani on the real start() of all four trackers for every content of parked lists of length 0..3 (quick) / 0..5 (thorough). Level other, not proof: start() is complete per list length only, and the runner replaying its buffer front-to-back is not under contract.',
-        note='assumed: Kani tier runs the real crate against the stub Bevy of /verif/env (kept honest by the 81 repo tests passing against it); debug_assert! compiled out (release semantics); Vec/VecDeque specs of vstd; core::mem::replace assume_specification; syscommand_runner (replay order of the buffer) not covered',
+        note=ENVNOTE + '; Vec/VecDeque specs of vstd; core::mem::replace assume_specification; syscommand_runner (replay order of the buffer) not covered',
         explanation='queue FIFO proved (Verus, unbounded); tracker prepare/end proved (Verus); tracker start complete per length L<=3/5 (Kani); lemma L1 lifts the start contract to per-system FIFO for unbounded histories; runner replay order not covered'),
-    'C03': dict(category='other', design_ref='DESIGN.md 5/C03',
-        text='Contracts on the four access trackers and every event reader: prepare = append, end clears (Verus, unbounded, verbatim text); start(r) claims the oldest entry parked for r and leaves the rest in order (Kani, every content of lists of length 0..3/5); each reader returns the causing event\'s own payload/target/source iff the tracker is reacting AND kind and type id are the reader\'s, and Err otherwise, incl. manual runs (Kani, loop-free, all flag/kind/type combinations, symbolic payloads); start_*/end_* in commands.rs start/stop exactly the trackers of their kind. Lemma L1 (Verus) lifts this to: for any interleaving of parked events each run of a system receives the oldest metadata parked for it. Not covered: that the runner replays postponed commands in parking order (runner-level histories; see known finding F3).',
-        note='assumed: stub Bevy (Query::get, World resources) of /verif/env; release semantics (debug_assert! off); readers instantiated at payload types u32/u16 and component types A/B; the cross-kind metadata mix-up under nested replay (F3) is a runner-level history that no function contract decides: listed in known_findings.json',
-        explanation='tracker prepare/end/getters proved by Verus; start and readers complete@shape by Kani; per-system FIFO by lemma L1; runner not covered'),
+    'C13': dict(category='other', design_ref='DESIGN.md 5/C13',
+        text='Verus proves on verbatim text that SystemCommandStorage::take hands out exactly the stored callback and leaves None (so a second take while it is out yields None), and insert stores exactly its argument. Kani discharges on the real RawCallbackSystem / CallbackSystem::run_with_cleanup, with a stub System carrying its own run and initialize counters, that over 2-3 consecutive runs `initialize` happens exactly once, every run is executed by the SAME instance (its private counter continues) and the system is stored back as Initialized after every run, for exclusive and non-exclusive systems. Not covered: that the runner puts the callback it took back onto the same entity on every path.',
+        note=ENVNOTE + '; stub System = assumed contract of bevy System; Box<dyn FnMut> callbacks are opaque values in the Verus unit',
+        explanation='storage take/insert proved (Verus); one initialisation and instance identity over bounded run sequences (Kani); runner not covered'),
+    'C14': dict(category='other', design_ref='DESIGN.md 5/C14',
+        text='Kani, loop-free over the full u32 value domain on the real accessors: React::{get,get_noreact} and the ReactResMut read paths queue nothing; React::get_mut / ReactResMut::get_mut queue exactly one trigger command per call; set_if_neq(new): new == old => None, value unchanged, nothing queued; new != old => Some(old), value stored, exactly one trigger. The trigger itself: schedule_mutation_reaction / schedule_insertion_reaction queue exactly one command per matching registration for THIS entity and component type (bounded shapes), and schedule_insertion_reaction queues nothing for an entity that does not carry the component (despawned before apply). Level other: value-level clauses are complete per instantiation; ReactiveMut (query-level wrappers) and ReactCommands::insert\'s command pair are not discharged (CBMC cost).',
+        note=ENVNOTE + '; component/resource instantiated at a u32 newtype',
+        explanation='accessor clauses complete@shape (Kani, loop-free, full value domain); dispatch of the trigger bounded (Kani)'),
+    'C18': dict(category='other', design_ref='DESIGN.md 5/C18',
+        text='Function-level robustness contracts: Verus (verbatim, unbounded): revoke_reactor skips - does not abort on - token elements whose entity is gone and still processes all later elements; try_cleanup_data_entity is a no-op on a dead entity; cleanup_on_abort runs setup+cleanup whether or not the target exists. Kani (every reachable panic is a failed obligation): try_cleanup_data_entity on dead / counter-less entities, schedule_entity_event_reaction for a target without reactor list, tracker start without entry, revoke_* with absent key/id. Not covered: targets dying while commands for them are postponed (runner).',
+        note=ENVNOTE,
+        explanation='dead-target paths of revoke walk, payload cleanup and abort proved by Verus; no-panic/no-effect harnesses by Kani; runner not covered'),
 }
+PENDING = {k: 'obligations for this property are not built yet (build in progress); not claimed until its check exists and passes on the unchanged tree'
+           for k in ['C07','C08','C10','C16','C17']}
 for k, v in NA.items():
     assert k not in PROPS
 
-PENDING = {k: 'obligations for this property are not built yet (build in progress); not claimed until its check exists and passes on the unchanged tree'
-           for k in ['C01','C04','C05','C06','C07','C08','C10','C13','C14','C16','C17','C18']}
